@@ -454,6 +454,23 @@ func mkCoreCases() []func(rng *rand.Rand) mkCase {
 		c.tag = "nil-value"
 		return c
 	})
+	// a message without a value in the middle of a script, against value checkers that reject it
+	for _, mock := range []string{"sync", "async"} {
+		for _, kinds := range [][]mkExpKind{{mkS, mkVSf, mkS, mkS}, {mkS, mkVFf, mkS}, {mkVSf}, {mkS, mkVSp, mkVFf, mkS}} {
+			mock, kinds := mock, kinds
+			add(func(rng *rand.Rand) mkCase {
+				c := mkFixedProducer(rng, mock, "hash", kinds, len(kinds), 3, 1, false)
+				for i, k := range kinds {
+					if k.valueChecker() && i < len(c.msgs) {
+						c.msgs[i].nilValue = true
+						c.msgs[i].msg.Value = nil
+					}
+				}
+				c.tag = "nil-value-mid-script"
+				return c
+			})
+		}
+	}
 	// consumer
 	for i := 0; i < 11; i++ {
 		i := i
